@@ -203,7 +203,10 @@ def rand_value(rng):
     if r < 0.5:
         return HV(rng.choice(["h", "a&amp;b", "", "h i"]))
     if r < 0.65:
-        return N(rng.choice([0, 1, -2, 2.5, 1e21, True, False, 1234567.0, 0.30000000000000004, 10**12, -0.0, 1e-7]))
+        n_ = N(rng.choice([0, 1, -2, 2.5, 1e21, True, False, 1234567.0, 0.30000000000000004, 10**12, -0.0, 1e-7]))
+        if rng.random() < 0.2 and type(n_["v"]) in (int, float):
+            n_["sub"] = True    # an int / float subclass (an IntEnum member, a length with a unit): written as its str() text
+        return n_
     return rng.choice([TRUE, NONE, FALSE])
 
 
